@@ -22,6 +22,7 @@
 //! ```
 
 #![warn(missing_docs)]
+#![allow(unexpected_cfgs)]
 
 pub mod aa;
 
